@@ -37,6 +37,11 @@
 (*   FlagAfterLoad         __call__ sets _cached after load() returned     *)
 (*                         (FALSE: before — a load that raises leaves a    *)
 (*                         handle that claims to be cached)                *)
+(*   HandleNamesCopied     the snapshot keeps its own copy of the names    *)
+(*                         that are handles (FALSE: a live view of the     *)
+(*                         map's table — an old snapshot hands out raw     *)
+(*                         handles, or calls a sub-snapshot, once the map  *)
+(*                         has moved on)                                   *)
 (***************************************************************************)
 EXTENDS Naturals, Sequences, FiniteSets, TLC
 
@@ -58,7 +63,7 @@ CONSTANTS MapOrder,     \* sequence of map ids (strings); MapOrder[1] is the roo
           KindChoices,  \* set of functions [Hd -> Kinds]: what load() returns
           ClsChoices,   \* set of functions [Names -> NameClasses]: lexical class of each name
           ImplicitMapsLinked, ClearAllLayers, SetItemPopsAllLayers, StaticSlotsUnmangled, CacheTestsFlag,
-          WalkLinksOnlyCreated, FlagAfterLoad
+          WalkLinksOnlyCreated, FlagAfterLoad, HandleNamesCopied
 
 VARIABLES maps, layers, parent, key,          \* ResourceMap tables and back-links
           cached, value, gen, kind,           \* Handle: _cached, _cache (serial), loads so far, value kind (fixed)
@@ -369,9 +374,13 @@ SLookup(x, n) == IF n \in DOMAIN sslot[x] THEN sslot[x][n]
 
 \* __getattribute__ (and __getitem__, which is getattr): names in _handle_names are called
 SRead(x, n) ==
-    LET d == SLookup(x, n) IN
-    IF n \in shn[x] /\ d[1] = "h" THEN Access(d[2])
-    ELSE Plain(IF d[1] = "m" THEN <<"snap", d[2], 0>> ELSE <<"exc", "AttributeError", 0>>)
+    LET d == SLookup(x, n)
+        hn == IF HandleNamesCopied THEN shn[x] ELSE DOMAIN Vis(x)
+    IN IF n \in hn /\ d[1] = "h" THEN Access(d[2])
+       ELSE IF n \in hn /\ d[1] = "m" THEN Plain(<<"exc", "TypeError", 0>>)          \* (a sub-snapshot is not callable)
+       ELSE Plain(IF d[1] = "m" THEN <<"snap", d[2], 0>>
+                  ELSE IF d[1] = "h" THEN <<"handle", d[2], 0>>                      \* (never, while shn is right)
+                  ELSE <<"exc", "AttributeError", 0>>)
 
 SAttr(x, n) == /\ "sattr" \in Ops /\ x \in SnapNodes /\ IsIdent(cls[n])      \* attribute syntax needs an identifier
                /\ SRead(x, n) /\ UNCHANGED <<tree, fixed, sealed, snap>>
